@@ -386,6 +386,7 @@ func genSubCase(t *rapid.T, rec *ev.Recorder) (*SubCase, []string) {
 		o := opgen.DefaultOptions()
 		o.OpType = ast.Subscription
 		o.MaxRoot = 1
+		o.MaxDepth = rapid.SampledFrom([]int{3, 3, 4, 5, 6}).Draw(t, "maxdepth") // lists below several nested objects need depth
 		o.IDs = entityIDs(w.Store)
 		o.MultiOp = false
 		applyGates(&o)
